@@ -90,14 +90,15 @@ def build_coq():
             rc, log = sh(["coq_makefile", "-f", "_CoqProject", "-o", "Makefile"], cwd=COQ)
             if rc:
                 raise BuildError("coq_makefile failed", log)
-        rc, log = sh(["make", "-j16"], cwd=COQ, timeout=3000)
+        noproof = bool(os.environ.get("VERIF_DEV_NOPROOF"))      # development only: model + extraction, proofs skipped
+        rc, log = sh(["make", "-j16"] + (["Run.vo"] if noproof else []), cwd=COQ, timeout=3000)
         if rc:
             raise BuildError("Coq build failed (a proof obligation no longer checks)", log[-6000:])
         # Print Assumptions
         thms = property_theorems()
         alog = os.path.join(COQ, "assumptions.log")
         pvo = os.path.join(COQ, "Properties.vo")
-        if os.path.exists(pvo) and (not os.path.exists(alog) or os.path.getmtime(alog) < os.path.getmtime(pvo)):
+        if not noproof and os.path.exists(pvo) and (not os.path.exists(alog) or os.path.getmtime(alog) < os.path.getmtime(pvo)):
             names = [n for l in thms.values() for n in l]
             src = "From Model Require Import Properties.\n" + "".join(
                 'Goal True. idtac "@@ %s". Abort.\nPrint Assumptions %s.\n' % (n, n) for n in names)
